@@ -1,0 +1,76 @@
+//go:build verif
+
+package main
+
+import (
+	"bytes"
+	"fmt"
+	"go/ast"
+	"go/importer"
+	"go/parser"
+	"go/printer"
+	"go/token"
+	"go/types"
+	mathrand "math/rand"
+	"strconv"
+	"strings"
+
+	"mvdan.cc/garble/internal/literals"
+)
+
+var _ = func() bool {
+	// litobf <obfuscator index> <seed> <data> -> nkeys (typ bits value used)* | printed decoder block
+	verifOps["litobf"] = func(a []string) string {
+		seed, _ := strconv.ParseInt(a[1], 10, 64)
+		keys, block := literals.VerifObfuscate(verifInt(a[0]), seed, verifUnhex(a[2]))
+		var sb strings.Builder
+		fmt.Fprintf(&sb, "%d", len(keys))
+		for _, k := range keys {
+			used := 0
+			if k.Used {
+				used = 1
+			}
+			fmt.Fprintf(&sb, " %s %d %d %d", k.Typ, k.Bits, k.Value, used)
+		}
+		var buf bytes.Buffer
+		if err := printer.Fprint(&buf, token.NewFileSet(), block); err != nil {
+			panic(err)
+		}
+		return sb.String() + " | " + verifHex(buf.Bytes())
+	}
+	// litfile <seed> <source> [<path.name=value>...] : the real literals.Obfuscate on one type-checked file
+	// (std imports only); answers the printed file
+	verifOps["litfile"] = func(a []string) string {
+		seed, _ := strconv.ParseInt(a[0], 10, 64)
+		fs := token.NewFileSet()
+		f, err := parser.ParseFile(fs, "lit.go", verifUnhex(a[1]), parser.ParseComments)
+		if err != nil {
+			return "err parse " + verifHex([]byte(err.Error()))
+		}
+		info := &types.Info{
+			Types: make(map[ast.Expr]types.TypeAndValue),
+			Defs:  make(map[*ast.Ident]types.Object),
+			Uses:  make(map[*ast.Ident]types.Object),
+		}
+		conf := types.Config{Importer: importer.ForCompiler(fs, "source", nil)}
+		pkg, err := conf.Check("main", fs, []*ast.File{f}, info)
+		if err != nil {
+			return "err types " + verifHex([]byte(err.Error()))
+		}
+		link := map[*types.Var]string{}
+		for _, x := range a[2:] {
+			name, val, _ := strings.Cut(string(verifUnhex(x)), "=")
+			if obj, ok := pkg.Scope().Lookup(strings.TrimPrefix(name, "main.")).(*types.Var); ok {
+				link[obj] = val
+			}
+		}
+		rnd := mathrand.New(mathrand.NewSource(seed))
+		out := literals.Obfuscate(rnd, f, info, link, randomName)
+		var buf bytes.Buffer
+		if err := printer.Fprint(&buf, fs, out); err != nil {
+			panic(err)
+		}
+		return verifHex(buf.Bytes())
+	}
+	return true
+}()
